@@ -16,15 +16,22 @@ EXTENDS Integers, Sequences, TLC, Json
 Trace == ndJsonDeserialize("trace.ndjson")
 TLen  == Len(Trace)
 
-InitRegs == TLCSet(1, <<"none", 0>>) /\ TLCSet(2, 0)
+InitRegs == TLCSet(1, <<"none", 0>>) /\ TLCSet(2, 0) /\ TLCSet(3, <<"none", 0>>) /\ TLCSet(4, 0)
 
 \* record the first violated clause; always TRUE so it can be conjoined anywhere
 Mark(cond, name, line) ==
     IF cond /\ TLCGet(1)[1] = "none" THEN TLCSet(1, <<name, line>>) ELSE TRUE
 
+\* drift: the code departs from the Level-I model / reference without breaking the property
+\* (register 3: first drift, register 4: number of drifting lines).  Never a verdict.
+Drift(cond, name, line) ==
+    IF cond THEN /\ (IF TLCGet(3)[1] = "none" THEN TLCSet(3, <<name, line>>) ELSE TRUE)
+                 /\ TLCSet(4, TLCGet(4) + 1)
+            ELSE TRUE
+
 Consumed(line) == IF line > TLCGet(2) THEN TLCSet(2, line) ELSE TRUE
 
-Verdict == PrintT(<<"VERIF_VERDICT", TLCGet(1)[1], TLCGet(1)[2], TLCGet(2), TLen>>)
+Verdict == PrintT(<<"VERIF_VERDICT", TLCGet(1)[1], TLCGet(1)[2], TLCGet(2), TLen, TLCGet(3)[1], TLCGet(3)[2], TLCGet(4)>>)
 
 \* field access with default (events of different kinds carry different fields)
 Has(e, f) == f \in DOMAIN e
